@@ -86,6 +86,15 @@ class Mgr:
             self.dfuns, self.dattrs = [0, 1], []
             self.top_obj = lib
         self.cls = type(self.mgr)
+        self.nmodelled = len(self.dnames)
+        self.dnames = self.dnames + ["c17_new"]      # in neither _functions nor _attributes: registered below, never dispatched
+        if not tenalg:
+            import tensorly.base as libmod           # `from . import backend as tl`
+            self.lib_alias = lambda: libmod.tl
+            self.reg_name, self.reg_args = "digamma", (1.0,)
+        else:
+            self.lib_alias = lambda: getattr(tl, "tenalg")
+            self.reg_name, self.reg_args = "higher_order_moment", (np.zeros((2, 2)), 2)
 
         def chain():
             # executed INSIDE a tensor-algebra function: the backend function its body calls must be served by the calling
@@ -114,6 +123,13 @@ class Mgr:
         A_ = type("A_", (Base,), dict(body), backend_name=self.names[self.harness_names[0]])
         B_ = type("B_", (Base,), dict(body), backend_name=self.names[self.harness_names[1]])
         X_ = type("X_", (Other,), {}, backend_name=other_kw)
+
+        def nothing(self_):
+            raise AttributeError(f"{type(self_).__name__} provides no {self.reg_name}")
+        self.names[6] = "bkc" if not tenalg else "tkc"
+        self.code = {v: k for k, v in self.names.items()}
+        C_ = type("C_", (Base,), {self.reg_name: property(nothing)}, backend_name=self.names[6])
+        self.reg_obj = C_()                                     # Obj 4: its class provides nothing under reg_name
         self.classes = {A_: self.harness_names[0], B_: self.harness_names[1]}
         self.pool = [A_(), B_(), A_(), B_()]                    # Obj 0..3
         self.foreign = [X_(), None]                             # Foreign 0..1
@@ -129,6 +145,10 @@ class Mgr:
         self.static_attrs = set()
         self.marked = {}
         self.reset()
+        try:
+            self.mgr.register_backend_method("c17_new", lambda *a, **k: ("c17reg", 0))
+        except Exception:  # noqa
+            pass
         for k in self.stock:
             try:
                 self.mgr.set_backend(self.names[k])
@@ -171,7 +191,7 @@ class Mgr:
         if kind == "n":
             return self.names[k]
         if kind == "o":
-            return self.pool[k]
+            return self.pool[k] if k < len(self.pool) else self.reg_obj
         return self.foreign[k]
 
     def sel_valid(self, sel):
@@ -329,6 +349,8 @@ class Stepper:
         unit = "opcode" if self.opcodes else "line"
 
         def local(frame, event, arg):
+            if getattr(self, "free", False):
+                return local                      # free-running: no turn taking any more
             if event == unit:
                 self.done_line.release()          # about to execute a line / a bytecode: hand the turn back
                 if not self.go[tid].acquire(timeout=TIMEOUT):
@@ -1209,7 +1231,7 @@ def predicates(mode, nthreads, history, result):
 # THAT MOMENT by whoever acted last (inside whatever contexts that thread has open) - it never selects anything.
 # Contexts are entered / left through the context-manager protocol (cm.__enter__ / cm.__exit__), so that contexts of the
 # two managers opened by one thread need not be left innermost-first (ManualWorker, mode 7).
-ROUTES = ["manager module", "import-time binding / module __getattr__", "manager class"]
+ROUTES = ["manager module", "import-time binding / module __getattr__", "manager class", "alias held by a library module"]
 
 
 def manual_exit(cm, exn):
@@ -1236,6 +1258,8 @@ def d_value(M, route, n):
         return getattr(M.mgr, nm)
     if route == 2:
         return getattr(M.cls, nm)
+    if route == 3:
+        return getattr(M.lib_alias(), nm)
     if M.tenalg and n not in top_names(M):
         return getattr(M.mgr, nm)
     return getattr(M.top_obj, nm)
@@ -1351,6 +1375,12 @@ class ManualWorker(Worker):
                     self.reply(manual_exit(stacks[m].pop(), cmd[1]))
             elif k == "d":                               # an operation of the dispatch alphabet, outcome only
                 self.r.put(self.d_op(cmd[1], stacks))
+            elif k == "lspawn":                          # a logged look-up executed by a thread started right here
+                box = []
+                th = threading.Thread(target=lambda: box.append(lcall(Mgr.get(cmd[1][2]), cmd[1])), daemon=True)
+                th.start()
+                th.join(timeout=TIMEOUT)
+                self.r.put(box[0] if box else ("ran", ("?", "spawned thread did not answer")))
             elif k == "spawn":                           # the operation is executed by a thread started right here
                 box = []
                 th = threading.Thread(target=lambda: box.append(d_eval(Mgr.get(cmd[1][2]), cmd[1], self.caps)), daemon=True)
@@ -1388,6 +1418,10 @@ class ManualWorker(Worker):
                 if not stacks[op[2]]:
                     return ("sel", "noctx")
                 return ("sel", manual_exit(stacks[op[2]].pop(), op[3]))
+            if kind in ("reg", "rcall"):
+                return reg_eval(M, op, self.touched)
+            if kind == "lcall":
+                return lcall(M, op)
             if kind == "libprobe":
                 return ("probe", lib_probe(M))
             if kind == "static":
@@ -1487,7 +1521,7 @@ def random_dhistory(rng, m, maxlen):
             t = rng.choice([0, 1, 2, fresh, fresh])
             r2 = rng.random()
             n = rng.randrange(len(M.dnames))
-            route = rng.choice([0, 0, 1, 1, 2])
+            route = rng.choice([0, 0, 1, 1, 2, 3])
             if r2 < 0.2:
                 h.append(("capture", t, m, route, n))
                 ncaps += 1
@@ -1507,13 +1541,13 @@ def systematic_dhistories(m):
     for kind in ("set", "enter"):
         for local in (False, True):
             for static in (False, True):
-                h = [("capture", 1, m, r, n) for r in (0, 1, 2) for n in range(len(M.dnames))]
+                h = [("capture", 1, m, r, n) for r in (0, 1, 2, 3) for n in range(len(M.dnames))]
                 h.append((kind, 2, m, ("o", 1), local))
                 if static:
                     h.append(("static", 2, m))
                 for t in (0, 1, 2, fresh):
-                    h += [("callcap", t, m, k) for k in range(3 * len(M.dnames))]
-                    h += [("call", t, m, r, n) for r in (0, 1, 2) for n in range(len(M.dnames))]
+                    h += [("callcap", t, m, k) for k in range(4 * len(M.dnames))]
+                    h += [("call", t, m, r, n) for r in (0, 1, 2, 3) for n in range(len(M.dnames))]
                 if kind == "enter":
                     h.append(("exit", 2, m, local))
                     for t in (1, 2, fresh):
@@ -1588,7 +1622,7 @@ def top_names(M):
 
 def encode_dispatch(m, nthreads, descr_class, history, outs):
     M = Mgr.get(m)
-    ds = [6, m, nthreads, 1, int(descr_class), int(bool(M.dattrs) and 3 in top_names(M)), len(history) // 64, len(history) % 64]
+    ds = [6, m, nthreads, 1, int(bool(M.dattrs) and 3 in top_names(M)), len(history) // 64, len(history) % 64]
     for op, res in zip(history, outs):
         k = op[0]
         if k in ("set", "enter"):
@@ -1616,17 +1650,9 @@ def encode_dispatch(m, nthreads, descr_class, history, outs):
 
 
 def descr_class_ok(M):
-    """does a dispatched attribute answer when it is reached through the manager CLASS?  (the descriptor of the current
-    tree raises AttributeError: `if isinstance is None` tests the builtin)"""
-    if not M.dattrs:
-        return False
-    try:
-        getattr(M.cls, "backend_name")
-        return True
-    except AttributeError:
-        return False
-    except Exception:  # noqa
-        return True
+    """the model's parameter since /repo commit 0b04404: a dispatched attribute reached through the manager CLASS is served
+    by the accessing thread's current backend (before, the descriptor raised AttributeError)"""
+    return True
 
 
 def predicates_dispatch(m, nthreads, descr_class, history, outs):
@@ -1653,6 +1679,8 @@ def predicates_dispatch(m, nthreads, descr_class, history, outs):
         return res[1] == tok or (res[1] is None and tok[0] == "n" and tok[1] in M.stock)
 
     def value(t, route, n):
+        if n >= M.nmodelled:
+            return ("e",)                 # not a dispatched name (C17_unlisted_name_not_dispatched)
         isf = n in M.dfuns
         if route == 1 and n in top_fun:
             return ("w",)
@@ -1705,7 +1733,8 @@ def predicates_dispatch(m, nthreads, descr_class, history, outs):
                 v = value(t, op[3], op[4])
                 what = f"{M.dnames[op[4]]!r} through the {ROUTES[op[3]]}"
                 isf = op[4] in M.dfuns
-                pred = ("C17_static_dispatch_frozen" if frozen is not None and v[0] != "w" else
+                pred = ("C17_unlisted_name_not_dispatched" if op[4] >= M.nmodelled else
+                        "C17_static_dispatch_frozen" if frozen is not None and v[0] != "w" else
                         "C17_dispatch_follows_view" if isf else
                         "C17_dispatch_top_attribute_import_time" if (op[3] == 1 and op[4] in top_attr) else
                         "C17_dispatch_attribute_follows_view")
@@ -1728,7 +1757,7 @@ def dop_lit(op):
         return f"DStatic {op[1]}"
     if k == "dynamic":
         return f"DDynamic {op[1]}"
-    r = ["RMgr", "RTop", "RClass"]
+    r = ["RMgr", "RTop", "RClass", "RLib"]
     if k == "capture":
         return f"DCapture {op[1]} {r[op[3]]} {op[4]}"
     if k == "callcap":
@@ -1765,7 +1794,7 @@ def _dispatch_job(m, histories):
         for (t, wrong) in drive_dispatch.probes:
             fails.append(("C17_dispatch_follows_view", len(h) - 1, f"library code (tensorly.base.unfold / tensorly.tenalg.mode_dot / tucker_to_tensor) called in "
                           f"thread {t} after this history fetched implementations from objects other than the thread's current backend: {wrong}"))
-        hist = [f"{'tenalg' if m else 'backend'}.{op[0]}" + (f"/{['module', 'top', 'class'][op[3]]}" if op[0] in ("capture", "call") else "") + ":" + res[0]
+        hist = [f"{'tenalg' if m else 'backend'}.{op[0]}" + (f"/{['module', 'top', 'class', 'lib'][op[3]]}" if op[0] in ("capture", "call") else "") + ":" + res[0]
                 for op, res in zip(h, outs)]
         out.append((pack(encode_dispatch(m, 4, dc, h, outs)), fails[0] if fails else None, hist))
         if extra is None:
@@ -1950,7 +1979,7 @@ def dispatch_source_digits(Ms, dc):
         cls_kind, inst_kind = branch(body[0].body[0]), branch(body[0].orelse[0])
     else:
         raise Unsupported("descriptor __get__ shape")
-    ds = [7, wrap_kind, cur_kind, get_kind, inst_kind, cls_test, cls_kind, int(dc), int("int64" in _imported_names(tl, "backend"))]
+    ds = [7, wrap_kind, cur_kind, get_kind, inst_kind, cls_test, cls_kind, int("int64" in _imported_names(tl, "backend"))]
     from tensorly.tenalg import TenalgBackendManager
     for cls in (bm, TenalgBackendManager):
         ds += _static_kinds(cls, cur_kind)
@@ -1965,7 +1994,7 @@ def dispatch_source_digits(Ms, dc):
     for M in Ms:
         bound = _imported_names(tl, "backend") if not M.tenalg else _imported_names(M.top_obj, "tenalg")
         funs, attrs = set(M.cls._functions), set(M.cls._attributes)
-        for nm in M.dnames:
+        for nm in M.dnames[:M.nmodelled]:
             ds += [int(nm in funs), int(nm in attrs and nm not in funs), int(nm in bound)]
     return ds
 
@@ -2070,12 +2099,458 @@ def init_collect(procs):
     return out, skipped
 
 
+# ----------------------------------------------------------------------------- re-binding under concurrency (real interleaving)
+REBIND_STEPS = 14
+
+
+def rebind_window(m, k):
+    """thread A runs use_dynamic_dispatch() of manager m under settrace and is stopped after k source lines; thread B then
+    looks the first name of _functions up through the manager module; A then runs to completion untraced.
+    Returns 0 (found) | 1 (AttributeError)"""
+    M = Mgr.get(m)
+    st = Stepper([1], traced_files())
+    st.free = False
+
+    def A():
+        st.start(1)
+        try:
+            M.mgr.use_dynamic_dispatch()
+        finally:
+            st.finish(1)
+    th = threading.Thread(target=A, daemon=True)
+    th.start()
+    for _ in range(k):
+        if st.finished[1]:
+            break
+        st.go[1].release()
+        if not st.done_line.acquire(timeout=TIMEOUT):
+            raise HarnessStuck("re-binding thread did not reach its next line")
+    out = []
+
+    def B():
+        try:
+            getattr(M.mgr, M.cls._functions[0])
+            out.append(0)
+        except AttributeError:
+            out.append(1)
+    tb = threading.Thread(target=B, daemon=True)
+    tb.start()
+    tb.join(timeout=TIMEOUT)
+    st.free = True                       # the rest of the loop runs without turn taking
+    st.go[1].release()
+    th.join(timeout=TIMEOUT)
+    if not out or th.is_alive():
+        raise HarnessStuck("re-binding scenario did not finish")
+    return out[0]
+
+
+def rebind_with_del(manager_cls):
+    """does the loop over cls._functions in the CURRENT source of use_dynamic_dispatch delete the attribute before setting it?"""
+    fn = _fn_ast(manager_cls.use_dynamic_dispatch.__func__)
+    for st in fn.body:
+        if isinstance(st, ast.For) and _attr_chain(st.iter) == ["cls", "_functions"]:
+            return any(isinstance(x, ast.Call) and getattr(x.func, "id", None) == "delattr" for x in ast.walk(st))
+    raise Unsupported("use_dynamic_dispatch: no loop over cls._functions")
+
+
+def _rebind_job(m):
+    M = Mgr.get(m)
+    obs = [rebind_window(m, k) for k in range(REBIND_STEPS)]
+    try:
+        wd = int(rebind_with_del(M.cls))
+    except Unsupported:
+        wd = int(any(obs))               # unknown loop shape: the tie is broken, only the predicate judges
+    fail = None
+    if any(obs):
+        k = obs.index(1)
+        fail = ("C17_micro_rebind_no_window", k,
+                f"while a thread was inside {'tensorly.tenalg' if m else 'tensorly.backend'}.use_dynamic_dispatch() (stopped after {k} source lines) another "
+                f"thread's look-up of {M.cls._functions[0]!r} through the manager module raised AttributeError; it is bound before and after the call")
+    lit = pack([9, m, wd, len(obs)] + obs)
+    return [(lit, fail, [f"{'tenalg' if m else 'backend'}.use_dynamic_dispatch||lookup:{'missing' if any(obs) else 'found'}"])], None
+
+
+# ----------------------------------------------------------------------------- register_backend_method (Model: rst / rop)
+# ("set"|"enter", t, m, sel, local) | ("exit", t, m, exn) | ("reg", t, m, v) | ("rcall", t, m); thread 0 = main (calls only).
+# Selector ("o", 4) = an instance of a harness subclass that provides NOTHING under the registered name.
+REG_MISSING = object()
+
+
+def reg_fn(v):
+    return lambda *a, **k: ("c17reg", v)
+
+
+def reg_eval(M, op, touched):
+    """reg / rcall executed in the calling thread"""
+    nm = M.reg_name
+    if op[0] == "reg":
+        cls = type(M.mgr.current_backend())
+        touched.append((cls, cls.__dict__.get(nm, REG_MISSING)))
+        M.mgr.register_backend_method(nm, reg_fn(op[3]))
+        return ("none",)
+    q = M.code.get(M.mgr.get_backend(), 63)
+    try:
+        r = getattr(M.mod, nm)(*M.reg_args)
+    except AttributeError:
+        return ("err",)
+    except Exception as e:  # noqa
+        return ("ran", 62, 62)
+    v = r[1] if isinstance(r, tuple) and len(r) == 2 and r[0] == "c17reg" else 0
+    return ("ran", q, v)
+
+
+def reg_restore(M, touched):
+    for cls, old in reversed(touched):
+        try:
+            if old is REG_MISSING:
+                if M.reg_name in cls.__dict__:
+                    delattr(cls, M.reg_name)
+            else:
+                setattr(cls, M.reg_name, old)
+        except Exception:  # noqa
+            pass
+
+
+def drive_reg(m, history, nthreads=3):
+    M = Mgr.get(m)
+    touched = []
+    workers = {}
+    for t in range(1, nthreads):
+        w = ManualWorker(m, t)
+        w.caps = []
+        w.touched = touched
+        w.start()
+        workers[t] = w
+    outs = []
+    try:
+        for op in history:
+            res = reg_eval(M, op, touched) if op[1] == 0 else workers[op[1]].call(("d", op))
+            if isinstance(res, tuple) and res and res[0] == "harness-error":
+                raise HarnessStuck(str(res))
+            outs.append(res)
+        return outs
+    finally:
+        for w in workers.values():
+            w.q.put(("stop",))
+        for w in workers.values():
+            if w.thread is not None:
+                w.thread.join(timeout=TIMEOUT)
+        reg_restore(M, touched)
+
+
+def random_rhistory(rng, m, maxlen):
+    M = Mgr.get(m)
+    valid = [("o", k) for k in range(5)] + [("n", k) for k in M.names if M.sel_valid(("n", k))]
+    depth = {1: 0, 2: 0}
+    h, v = [], 0
+    for _ in range(rng.randint(3, maxlen)):
+        r = rng.random()
+        if r < 0.35:
+            t = rng.choice([1, 2])
+            if depth[t] and rng.random() < 0.35:
+                depth[t] -= 1
+                h.append(("exit", t, m, rng.random() < 0.4))
+                continue
+            kind = rng.choice(["set", "set", "enter"])
+            s = ("n", 4) if rng.random() < 0.06 else rng.choice(valid)
+            if kind == "enter" and s != ("n", 4):
+                depth[t] += 1
+            h.append((kind, t, m, s, rng.random() < 0.6))
+        elif r < 0.55 and v < 30:
+            v += 1
+            h.append(("reg", rng.choice([0, 1, 2]), m, v))
+        else:
+            h.append(("rcall", rng.choice([0, 1, 2]), m))
+    for t in (0, 1, 2):
+        h.append(("rcall", t, m))
+    return tuple(h)
+
+
+def encode_reg(m, nthreads, history, outs):
+    ds = [10, m, nthreads, 1, len(history) // 64, len(history) % 64]
+    for op, res in zip(history, outs):
+        k = op[0]
+        if k in ("set", "enter"):
+            ds += [0 if k == "set" else 1, op[1], SELKIND[op[3][0]], op[3][1], int(op[4])]
+        elif k == "exit":
+            ds += [2, op[1], int(op[3]), 0, 0]
+        elif k == "reg":
+            ds += [3, op[1], op[3], 0, 0]
+        else:
+            ds += [4, op[1], 0, 0, 0]
+        if res[0] == "sel":
+            ds += [0, OUTCOME.get(res[1], 3), 0]
+        elif res[0] == "none":
+            ds += [1, 0, 0]
+        elif res[0] == "ran":
+            ds += [2, min(res[1], 63), min(res[2], 63)]
+        else:
+            ds += [4, 0, 0]
+    assert all(0 <= d < 64 for d in ds), ds
+    return ds
+
+
+def predicates_reg(m, nthreads, history, outs):
+    """transcription of C17_registered_same_class / _inherited / _elsewhere_unchanged / C17_undefined_method_raises"""
+    M = Mgr.get(m)
+    fails = []
+    own = {t: None for t in range(nthreads)}
+    own[0] = 0                      # class codes = name codes
+    default = 0
+    stack = {t: [] for t in range(nthreads)}
+    stock_roots = set(M.stock)
+    parent = {c: 0 for c in list(M.harness_names) + [6]}
+    table = {c: 0 for c in stock_roots}          # class -> implementation; absent = inherit; 6 -> missing
+    table[6] = None
+
+    def cls_of(sel):
+        if sel[0] == "n":
+            return sel[1]
+        return 6 if sel[1] == 4 else M.harness_names[sel[1] % 2]
+
+    def cur(t):
+        return own[t] if own[t] is not None else default
+
+    def lookup(c):
+        if c in table:
+            return table[c]
+        return table.get(parent.get(c)) if parent.get(c) in table else None
+    for i, (op, res) in enumerate(zip(history, outs)):
+        k, t = op[0], op[1]
+        if k in ("set", "enter"):
+            if res == ("sel", "done"):
+                if k == "enter":
+                    stack[t].append((cur(t), op[4]))
+                own[t] = cls_of(op[3])
+                if not op[4]:
+                    default = own[t]
+        elif k == "exit":
+            if stack[t]:
+                old, loc = stack[t].pop()
+                own[t] = old
+                if not loc:
+                    default = old
+        elif k == "reg":
+            table[cur(t)] = op[3]
+        else:
+            v = lookup(cur(t))
+            exp = ("err",) if v is None else ("ran", cur(t), v)
+            if tuple(res) != exp:
+                fails.append(("C17_registered_call_follows_view", i,
+                              f"thread {t} called the dispatched {M.reg_name!r}: expected {exp} (class code of its backend, implementation: 0 native, "
+                              f"k the k-th registered; classes {M.names}), observed {tuple(res)}; registrations so far {table}"))
+    return fails
+
+
+def rop_lit(op):
+    if op[0] in ("set", "enter", "exit"):
+        return "RSel " + op_lit(op).split(", ", 1)[1][:-1]
+    return f"RReg {op[1]} 0 {op[3]}" if op[0] == "reg" else f"RCall {op[1]} 0"
+
+
+def _reg_job(m, histories):
+    Ms = Mgr.both()
+    out = []
+    for h in histories:
+        for X in Ms:
+            X.reset()
+        outs = drive_reg(m, h)
+        fails = predicates_reg(m, 3, h, outs)
+        out.append((pack(encode_reg(m, 3, h, outs)), fails[0] if fails else None,
+                    [f"{'tenalg' if m else 'backend'}.{op[0]}:{res[0]}" for op, res in zip(h, outs) if op[0] in ("reg", "rcall")]))
+    for X in Ms:
+        X.reset()
+    return out, None
+
+
+# ----------------------------------------------------------------------------- sweeps over ALL dispatched names, model-evaluated
+# The name tables are read off the CURRENT source (cls._functions, cls._attributes, the import list of tensorly/__init__.py)
+# and shipped with the case (Corr/C17.v leading digit 11); a sweep is one ("lcall", t, m, route, n) per name and route: the
+# object that served the name is identified by the attribute-access log of the harness backend classes (nothing logged =
+# a stock object).  Only histories without use_static_dispatch (a bound method fetched earlier logs nothing).
+def all_names(M):
+    import tensorly as tl
+    if getattr(M, "_allnames", None) is None:
+        funs = list(dict.fromkeys(M.cls._functions))
+        attrs = [a for a in dict.fromkeys(M.cls._attributes) if a not in funs]
+        try:
+            bound = _imported_names(tl, "backend") if not M.tenalg else set()
+        except Exception:  # noqa
+            bound = set()
+        M._allnames = funs + attrs
+        M._alltab = [1 + 4 * int(n in bound) for n in funs] + [2 + 4 * int(n in bound) for n in attrs]
+    return M._allnames, M._alltab
+
+
+def lcall(M, op):
+    names, tab = all_names(M)
+    nm, route = names[op[4]], op[3]
+    isfun = tab[op[4]] % 2 == 1
+    _ACCESS.log = log = []
+    try:
+        try:
+            if route == 0:
+                v = getattr(M.mgr, nm)
+            elif route == 2:
+                v = getattr(M.cls, nm)
+            elif route == 3:
+                v = getattr(M.lib_alias(), nm)
+            else:
+                v = getattr(M.top_obj if not M.tenalg else M.mgr, nm)
+        except AttributeError:
+            return ("err",)
+        if isfun and callable(v):
+            try:
+                v()                                   # the look-up of the implementation happens before the call fails
+            except Exception:  # noqa
+                pass
+    finally:
+        _ACCESS.log = None
+    hit = [o for (o, n) in log if n == nm]
+    return ("ran" if isfun else "val", M.token(hit[0]) if hit else None)
+
+
+def sweep_history(rng, m):
+    M = Mgr.get(m)
+    names, tab = all_names(M)
+    valid = [("o", k) for k in range(len(M.pool))] + [("n", k) for k in M.names if M.sel_valid(("n", k))]
+    h, depth = [], {1: 0, 2: 0}
+    for _ in range(rng.randint(1, 5)):
+        t = rng.choice([1, 2])
+        if depth[t] and rng.random() < 0.3:
+            depth[t] -= 1
+            h.append(("exit", t, m, rng.random() < 0.5))
+            continue
+        kind = rng.choice(["set", "enter"])
+        if kind == "enter":
+            depth[t] += 1
+        h.append((kind, t, m, rng.choice(valid), rng.random() < 0.5))
+    for t in (1, 2, 3):
+        for n, bits in enumerate(tab):
+            routes = [0, 1] if bits % 2 == 1 else ([0] if bits >= 4 else [0, 1])     # an attribute bound at import: manager module only
+            routes += [rng.choice([2, 3])]
+            for r in routes:
+                h.append(("lcall", t, m, r, n))
+    return tuple(h)
+
+
+def encode_sweep(m, nthreads, history, outs):
+    M = Mgr.get(m)
+    names, tab = all_names(M)
+    ds = [11, m, nthreads, 1, len(tab) // 64, len(tab) % 64] + tab + [len(history) // 64, len(history) % 64]
+    for op, res in zip(history, outs):
+        k = op[0]
+        if k in ("set", "enter"):
+            ds += [0 if k == "set" else 1, op[1], SELKIND[op[3][0]], 0, op[3][1], int(op[4])]
+        elif k == "exit":
+            ds += [2, op[1], int(op[3]), 0, 0, 0]
+        else:
+            ds += [7, op[1], op[3], op[4] // 64, op[4] % 64, 0]
+        if res[0] == "sel":
+            ds += [0, OUTCOME.get(res[1], 3)]
+        elif res[0] in ("ran", "val"):
+            ds += [DOUT[res[0]], tok_digit(res[1])]
+        else:
+            ds += [DOUT[res[0]], 0]
+    assert all(0 <= d < 64 for d in ds), [d for d in ds if not 0 <= d < 64]
+    return ds
+
+
+def predicates_sweep(m, nthreads, history, outs):
+    """C17_dispatch_follows_view / _attribute_follows_view / _class_attribute_follows_view / _library_route for EVERY dispatched name"""
+    M = Mgr.get(m)
+    names, tab = all_names(M)
+    own = {t: None for t in range(nthreads)}
+    own[0] = ("n", 0)
+    default = ("n", 0)
+    stack = {t: [] for t in range(nthreads)}
+    fails = []
+    for i, (op, res) in enumerate(zip(history, outs)):
+        k, t = op[0], op[1]
+        cur = own[t] if own[t] is not None else default
+        if k in ("set", "enter") and res == ("sel", "done"):
+            if k == "enter":
+                stack[t].append((cur, op[4]))
+            own[t] = ("n", op[3][1]) if op[3][0] == "n" else ("o", op[3][1])
+            if not op[4]:
+                default = own[t]
+        elif k == "exit" and stack[t]:
+            old, loc = stack[t].pop()
+            own[t] = old
+            if not loc:
+                default = old
+        elif k == "lcall":
+            isfun = tab[op[4]] % 2 == 1
+            ok = res[0] == ("ran" if isfun else "val") and (res[1] == cur or (res[1] is None and (cur[0] == "n" and cur[1] in M.stock)))
+            if cur[0] == "n" and cur[1] not in M.stock and res[0] != "err" and res[1] is not None and res[1][0] == "n":
+                ok = res[1] == cur
+            if not ok:
+                fails.append(("C17_dispatch_follows_view" if isfun else "C17_dispatch_attribute_follows_view", i,
+                              f"thread {t}{' (started at this moment)' if t == nthreads - 1 else ''} reached {names[op[4]]!r} through the {ROUTES[op[3]]}: "
+                              f"served by {res}, expected its current backend {cur}"))
+    return fails
+
+
+def drive_sweep(m, history, nthreads=4):
+    """like drive_dispatch (threads 1, 2 act; thread 3 = a thread started at that moment)"""
+    M = Mgr.get(m)
+    workers = {}
+    for t in (1, 2):
+        w = ManualWorker(m, t)
+        w.caps = []
+        w.start()
+        workers[t] = w
+    outs, last = [], None
+    try:
+        for op in history:
+            t = op[1]
+            if t == nthreads - 1:
+                if last is None:
+                    res = lcall(M, op)
+                else:
+                    res = workers[last].call(("lspawn", op))
+            else:
+                res = workers[t].call(("d", op))
+                last = t
+            if isinstance(res, tuple) and res and res[0] == "harness-error":
+                raise HarnessStuck(str(res))
+            outs.append(res)
+        return outs
+    finally:
+        for w in workers.values():
+            w.q.put(("stop",))
+        for w in workers.values():
+            if w.thread is not None:
+                w.thread.join(timeout=TIMEOUT)
+
+
+def _sweep_job(m, histories):
+    Ms = Mgr.both()
+    out = []
+    for h in histories:
+        for X in Ms:
+            X.reset()
+        outs = drive_sweep(m, h)
+        fails = predicates_sweep(m, 4, h, outs)
+        out.append((pack(encode_sweep(m, 4, h, outs)), fails[0] if fails else None,
+                    [f"{'tenalg' if m else 'backend'}.sweep-all-names:{len([o for o in h if o[0] == 'lcall'])} look-ups"]))
+    for X in Ms:
+        X.reset()
+    return out, None
+
+
 # ----------------------------------------------------------------------------- pool jobs
 def _pool_job(job):
     """executed in a pool process (in its main thread): drives the histories and digests the results there:
     per history (case literal without id, first predicate failure | None, [operation:outcome ...]);
     plus, for the first history, a copy of its literal with ONE observation altered (sentinel) and a sample"""
     mode, main_actor, nthreads, histories = job
+    if mode == 11:
+        return _rebind_job(histories[0])
+    if mode in (12, 13):
+        return _reg_job(mode - 12, histories)
+    if mode in (14, 15):
+        return _sweep_job(mode - 14, histories)
     if mode in (8, 9):
         return _dispatch_job(mode - 8, histories)
     if mode >= 3 and mode != 7:
@@ -2181,13 +2656,16 @@ def make_groups(tier, rng):
         groups.append((3 + m, False, 5, [random_scenario3(rng, m) for _ in range(150 if quick else 2000)], "concurrent-triple-schedules"))
     # both managers, contexts entered / left through the context-manager protocol: a context of one manager may be
     # left while a later context of the other manager is still live (C17_restore_mixed)
-    groups.append((7, False, 4, [nonlifo_history(rng, 10 if quick else 24) for _ in range(400 if quick else 1500)], "mixed-nonlifo-contexts"))
+    groups.append((7, False, 4, [nonlifo_history(rng, 10 if quick else 24) for _ in range(300 if quick else 1500)], "mixed-nonlifo-contexts"))
     # the dispatch layer: every route to a dispatched name, references captured before a switch and called by other
     # threads, threads started inside contexts, use_static_dispatch / use_dynamic_dispatch (Model/BackendDispatch.v)
     for m in (0, 1):
-        groups.append((8 + m, False, 4, systematic_dhistories(m) + [random_dhistory(rng, m, 14 if quick else 40) for _ in range(300 if quick else 2500)],
+        groups.append((8 + m, False, 4, systematic_dhistories(m) + [random_dhistory(rng, m, 14 if quick else 40) for _ in range(200 if quick else 2500)],
                        "dispatch-routes"))
         groups.append((8 + m, False, 4, exhaustive_dhistories(m, 3), "dispatch-exhaustive-3"))
+        groups.append((11, False, 2, [m], "rebind-window"))
+        groups.append((14 + m, False, 4, [sweep_history(rng, m) for _ in range(6 if quick else 60)], "sweep-all-names"))
+        groups.append((12 + m, False, 3, [random_rhistory(rng, m, 12 if quick else 30) for _ in range(120 if quick else 1500)], "register-backend-method"))
     return groups
 
 
@@ -2266,12 +2744,19 @@ def run(chk):
         meta.append(None)
     for g, res in zip(groups, results):
         mode, main_actor, nthreads, hs, tag = g
-        gname = {0: "backend:", 1: "tenalg:", 2: "both:", 3: "backend:", 4: "tenalg:", 7: "both:", 8: "backend:", 9: "tenalg:"}[mode] + tag
+        gname = {0: "backend:", 1: "tenalg:", 2: "both:", 3: "backend:", 4: "tenalg:", 7: "both:", 8: "backend:", 9: "tenalg:", 11: "both:", 12: "backend:", 13: "tenalg:", 14: "backend:", 15: "tenalg:"}[mode] + tag
         for h, (lit, fail, outs) in zip(hs, res):
             cid = len(cases)
             cases.append(f"({cid}, {lit})")
             meta.append((mode, main_actor, nthreads, h, tag))
-            if mode in (8, 9):
+            if mode in (14, 15):
+                ops, nontrivial = h, True
+            elif mode in (12, 13):
+                ops = h
+                nontrivial = any(op[0] == "reg" for op in h) and len({op[1] for op in h}) > 1
+            elif mode == 11:
+                ops, nontrivial = [h], True
+            elif mode in (8, 9):
                 ops = h
                 nontrivial = any(op[0] in ("set", "enter") for op in h) and any(op[0] in ("callcap", "static") for op in h)
             elif mode in (3, 4):
@@ -2286,11 +2771,20 @@ def run(chk):
             for o in outs:
                 chk.hist("operation", o)
             if fail is not None:
-                found.append((len(h), cid, fail))
+                found.append((len(h) if mode != 11 else 1, cid, fail))
     # shortest failing histories first; every finding carries the prefix of the history up to the failing step
     found.sort()
     for (_, cid, (pred, i, msg)) in found[:60]:
         mode, main_actor, nthreads, h, tag = meta[cid]
+        if mode == 11:
+            chk.finding("use_dynamic_dispatch", {"mode": 11, "manager": h, "stopped_after_lines": i}, msg, pred)
+            continue
+        if mode in (14, 15):
+            chk.finding(ENTRY[mode - 6], {"mode": mode, "history": dhist_to_json(h[:i + 1])}, f"step {i}: {msg}", pred)
+            continue
+        if mode in (12, 13):
+            chk.finding("register_backend_method", {"mode": mode, "history": dhist_to_json(h[:i + 1])}, f"step {i} ({rop_lit(h[i])}): {msg}", pred)
+            continue
         if mode in (8, 9):
             chk.finding(ENTRY[mode], {"mode": mode, "history": dhist_to_json(h[:i + 1])},
                         f"step {i} ({dop_lit(h[i])}): {msg}", pred)
@@ -2329,13 +2823,7 @@ def run(chk):
     dsrc_id = None
     try:
         Ms = Mgr.both()
-        dc = descr_class_ok(Ms[0])
-        chk.cov["dispatched_attribute_through_class"] = "answers" if dc else "raises AttributeError"
-        if not dc:
-            chk.notes.append("a dispatched ATTRIBUTE reached through the manager CLASS (BackendManager.int64, ...) raises AttributeError: "
-                             "dynamically_dispatched_class_attribute.__get__ tests `isinstance is None` (the builtin) instead of `instance is None`. "
-                             "Modelled (drules.descr_class = false, theorem C17_dispatch_attribute_follows_view), not judged: C17 speaks of dispatched "
-                             "functions (see build/fix_candidates/C17_descriptor_class_access.md)")
+        dc = True
         try:
             dsd = dispatch_source_digits(Ms, dc)
             dsrc_id = len(cases)
@@ -2408,17 +2896,22 @@ def run(chk):
                        "current source (ast) for both manager classes and checked in Coq (effect-point discipline, block equivalence with the model's programs "
                        "on 18 states each). DISPATCH (Model/BackendDispatch.v), per manager: 8 systematic histories (every (route, name) captured by thread 1 before a "
                        "switch of thread 2 - set / context, local / global, with and without use_static_dispatch - then called by every thread incl. one STARTED "
-                       "inside the context, through every route) + 300 (thorough 2500) random histories to length 14 (40) over {selections, use_static_dispatch, "
+                       "inside the context, through every route) + 200 (thorough 2500) random histories to length 14 (40) over {selections, use_static_dispatch, "
                        "use_dynamic_dispatch, capture, call captured, call} + EVERY feasible sequence of 3 letters (1393 / 1056 histories) of a 12-letter dispatch alphabet (tenalg 11: "
                        "4 selections of two threads, exit, use_static_dispatch by either, use_dynamic_dispatch, captures through each route) followed by a fixed suffix in which "
                        "thread 1 and a thread started at that moment use every captured reference and every (route, name) pair of two names; x routes {manager module, import-time binding / module __getattr__ (tensorly.<name>; for "
                        "tenalg: the name a library module imported), manager class} x names {2 functions, 2 attributes (backend only)}; every outcome (executing "
                        "object / object whose attribute was served / AttributeError) compared with the model; after each history without use_static_dispatch every actor "
                        "thread holding a harness backend runs LIBRARY code (tensorly.base.unfold, tenalg.mode_dot, tucker_to_tensor) under attribute-access logging. "
-                       "400 (thorough 1500) random histories over BOTH managers with contexts driven through cm.__enter__ / cm.__exit__, left in any order across "
+                       "300 (thorough 1500) random histories over BOTH managers with contexts driven through cm.__enter__ / cm.__exit__, left in any order across "
                        "the managers. Dispatch source: the look-up expressions of the dispatch closure, current_backend, get_backend, the attribute descriptor, what "
                        "use_dynamic_dispatch installs and the names bound at import are extracted from the current source (ast) and checked in Coq against the model's "
-                       "parameters. INITIALIZE: `import tensorly` in 6 fresh processes under TENSORLY_BACKEND / TENSORLY_TENALG_BACKEND in {unset, default name, other loadable name, "
+                       "parameters. REGISTER: 120 (thorough 1500) random histories per manager of selections, register_backend_method and calls of one dispatched name "
+                       "(digamma / higher_order_moment) incl. a harness subclass that provides nothing under the name, compared with the model's class method table. "
+                       "ALL NAMES: 6 (thorough 60) histories per manager ending in sweeps by two actor threads and a thread started at that moment over EVERY name of "
+                       "_functions / _attributes through the manager module, tensorly.<name>, and the class or a library alias; the name tables are read off the source and "
+                       "shipped to the model. REBIND: use_dynamic_dispatch under settrace stopped after k = 0..13 lines while another thread looks a name up (model: window "
+                       "iff the loop has the delattr). INITIALIZE: `import tensorly` in 6 fresh processes under TENSORLY_BACKEND / TENSORLY_TENALG_BACKEND in {unset, default name, other loadable name, "
                        "unlisted name, wrong case, listed-but-not-importable}: outcome (imported / warned / import failed), get_backend() in the importing thread and in a new "
                        "thread, _default_backend compared with the model's `initialize`. Non-trivial = at least two threads act and a context is entered; distinct key = (mode, "
                        "main-thread role, history). At most 40 disagreeing cases per shard of 2500 are listed")
@@ -2432,7 +2925,7 @@ def run(chk):
         if i == dsrc_id:
             chk.disagreement("corr:C17 dispatch source (the look-up expressions of the dispatch closure / descriptor / current_backend / get_backend, what "
                              "use_dynamic_dispatch installs, or the names bound at import differ from Model/BackendDispatch.v's parameters)",
-                             {"digits [closure, current_backend, get_backend, descriptor(instance), class test, descriptor(class), probed, int64 in import list, "
+                             {"digits [closure, current_backend, get_backend, descriptor(instance), class test, descriptor(class), int64 in import list, "
                               "use_static_dispatch look-ups x4, installs x4, module __getattr__, (function?, attribute?, bound at import?) per modelled name]": dsd[1:]})
             continue
         if i in src_ids:
@@ -2442,6 +2935,19 @@ def run(chk):
                              {"manager": "tensorly.tenalg" if m else "tensorly.backend", "programs [set, enter, exit, exit-by-exception] x [global, local]": progs})
             continue
         mode, main_actor, nthreads, h, tag = meta[i]
+        if mode in (14, 15):
+            chk.disagreement("corr:C17 dispatch over ALL dispatched names (model instantiated with the name tables read off the source)",
+                             {"mode": mode, "history": dhist_to_json(h[:12]), "look_ups": len(h)})
+            continue
+        if mode in (12, 13):
+            chk.disagreement("corr:C17 register (Model/BackendDispatch.v rst / rop vs register_backend_method + dispatched calls in real threads)",
+                             {"mode": mode, "history": dhist_to_json(h)})
+            continue
+        if mode == 11:
+            chk.disagreement("corr:C17 rebind (whether another thread can find a dispatched name missing during use_dynamic_dispatch differs from what the "
+                             "model predicts for the loop found in the source: a window iff the loop deletes the attribute before setting it)",
+                             {"mode": 11, "manager": h})
+            continue
         if mode in (8, 9):
             chk.disagreement("corr:C17 dispatch (Model/BackendDispatch.v vs the routes to a dispatched name: manager module, import-time binding / "
                              "module __getattr__, manager class, captured references, use_static_dispatch / use_dynamic_dispatch)",
@@ -2464,7 +2970,7 @@ def run(chk):
                    "in the instance dict of the stock instances identify the object a call ran on / an attribute came from; tensorly.int64 (bound at import, "
                    "before the marking) is recognised as the stock numpy backend's value",
                    "use_static_dispatch / use_dynamic_dispatch are driven inside the fork-pool processes only; use_dynamic_dispatch is called after every dispatch history"]
-    return chk.finish()
+    return chk.finish({"rebind_window": lambda f: f.get("inputs", {}).get("mode") == 11})
 
 
 def replay(payload):
@@ -2472,6 +2978,41 @@ def replay(payload):
         print("replay file names a broken theorem/correspondence, not an input:", payload.get("theorem_or_correspondence"))
         return 1
     inp = payload["inputs"]
+    if int(inp["mode"]) in (14, 15):
+        m = int(inp["mode"]) - 14
+        h = dhist_from_json(inp["history"])
+        Ms = Mgr.both()
+        for M in Ms:
+            M.reset()
+        outs = drive_sweep(m, h)
+        fails = predicates_sweep(m, 4, h, outs)
+        for M in Ms:
+            M.reset()
+            M.unmark()
+        for f in fails[:5]:
+            print("replay:", f)
+        return 1 if fails else 0
+    if int(inp["mode"]) in (12, 13):
+        m = int(inp["mode"]) - 12
+        h = dhist_from_json(inp["history"])
+        Ms = Mgr.both()
+        for M in Ms:
+            M.reset()
+        outs = drive_reg(m, h)
+        fails = predicates_reg(m, 3, h, outs)
+        for M in Ms:
+            M.reset()
+            M.unmark()
+        for f in fails[:5]:
+            print("replay:", f)
+        return 1 if fails else 0
+    if int(inp["mode"]) == 11:
+        obs = [rebind_window(int(inp["manager"]), k) for k in range(REBIND_STEPS)]
+        for M in Mgr.both():
+            M.reset()
+            M.unmark()
+        print("replay: look-ups during use_dynamic_dispatch (0 found, 1 AttributeError), stopped after k = 0.. lines:", obs)
+        return 1 if any(obs) else 0
     if int(inp["mode"]) == 10:
         global INIT_ENVS
         m = 1 if str(inp["manager"]).endswith("tenalg") else 0
